@@ -63,6 +63,9 @@ def main():
             elif kind == "callobj":
                 OBJS[op["obj"]] = getattr(mod, op["name"])(*pos, **kw)
                 r = type(OBJS[op["obj"]]).__name__
+            elif kind == "methodobj":
+                OBJS[op["obj"]] = getattr(OBJS[op["src"]], op["name"])(*pos, **kw)
+                r = type(OBJS[op["obj"]]).__name__
             elif kind == "alias":
                 OBJS[op["obj"]] = OBJS[op["of"]]
                 r = True
